@@ -1,6 +1,7 @@
 import CacheVerif.Props.C01
 import CacheVerif.Props.C11
 import CacheVerif.Proofs.ProtoData
+import CacheVerif.Proofs.DeepSource
 /-!
 # C07 — Range/Items visit each qualifying entry once, never a phantom or expired one
 
@@ -88,6 +89,23 @@ theorem C07_cache_range_unexpired (s : Cache.St K V) (a : TTL.St K V) (h : Sim s
 theorem C07_cache_items (s : Cache.St K V) (a : TTL.St K V) (h : Sim s a) :
     ∃ π : List (K × Item V), π.Perm a.live ∧ (Cache.step s .items).2.out = .items (π.map fun p => (p.1, p.2.v)) :=
   (step_sim s a h .items).2.1
+
+/-- the same for the text of `Range` in both cache-layer files (printed from the working tree, run by the
+interpreter of the Go subset): the visitor is called on an enumeration of exactly the entries that are live at the
+traversal's clock, each once, until it returns false, and nothing is modified -/
+theorem C07_source_range (s : Cache.St K V) (a : TTL.St K V) (h : Sim s a) (f : K → V → Bool)
+    (T : Deep.Twin K V) (hT : DeepSource.IsTwin T) :
+    ∃ s' r, Deep.deepStep T s (.range f) = some (s', r) ∧ s' = s ∧
+      ∃ π : List (K × Item V), π.Perm a.live ∧ r.out = .visits (TTL.walk f π) ∧ (π.map (·.1)).Nodup := by
+  obtain ⟨π, hp, ho, hn, _, hs⟩ := C07_cache_range s a h f
+  exact ⟨_, _, DeepSource.step s _ T hT, hs, π, hp, ho, hn⟩
+
+/-- `Items` of both files: exactly the live entries -/
+theorem C07_source_items (s : Cache.St K V) (a : TTL.St K V) (h : Sim s a) (T : Deep.Twin K V) (hT : DeepSource.IsTwin T) :
+    ∃ s' r, Deep.deepStep T s .items = some (s', r) ∧
+      ∃ π : List (K × Item V), π.Perm a.live ∧ r.out = .items (π.map fun p => (p.1, p.2.v)) := by
+  obtain ⟨π, hp, ho⟩ := C07_cache_items s a h
+  exact ⟨_, _, DeepSource.step s _ T hT, π, hp, ho⟩
 
 /-- a nil visitor is ignored -/
 theorem C07_cache_range_nil (s : Cache.St K V) : Cache.step s .rangeNil = (s, { out := .unit }) := rfl
